@@ -112,7 +112,11 @@ func (d *c09DHCP) frame(r *rand.Rand, e gen.Env, mac refdec.MAC) []byte {
 	copy(m.CHAddr[:], mac[:])
 	src, dst := ip4zero, netip.MustParseAddr("255.255.255.255")
 	a, has := d.acked[mac]
-	switch k := r.Intn(6); {
+	k := r.Intn(8)
+	if has && k > 2 {
+		k = 0 // a client that holds a lease mostly renews it
+	}
+	switch {
 	case has && k == 0: // renew
 		m.XID = [4]byte{mac[1], byte(r.Intn(256)), 3, 1}
 		m.CI, src, dst = a, a, e.HostIP
@@ -166,6 +170,10 @@ func (d *c09DHCP) observe(e gen.Env, f []byte) {
 }
 
 type c09Run struct {
+	stats         atomic.Bool
+	recordHistory bool
+	wmu           sync.Mutex
+	workers       []*c09Worker
 	dh      *c09DHCP
 	c       *wk.Ctx
 	idx     int64
@@ -173,7 +181,6 @@ type c09Run struct {
 	st      *stack
 	gate    sync.RWMutex
 	stop    atomic.Bool
-	prog    atomic.Int64
 	inOp    atomic.Int64
 	clock   atomic.Int64
 	yieldV  map[string]int // point -> 0 none, 1 gosched, 2 sleep
@@ -189,10 +196,18 @@ func (cr *c09Run) counter(m *sync.Map, k string) *atomic.Int64 {
 	return v.(*atomic.Int64)
 }
 
+// Harness synchronisation hides races: every atomic operation on a shared variable and every shared mutex orders the
+// goroutines that touch it, and the race detector only reports accesses that are unordered. The statistics that need shared
+// atomics (yield point hits, overlap of operations) are therefore collected only during the first two seconds of a run
+// (cr.stats); after that an operation touches nothing shared except the barrier gate (whose readers are not ordered with each
+// other) and a progress counter owned by its own goroutine. The register history for porcupine (a shared clock and a mutex) is
+// recorded in every third run only.
 func (cr *c09Run) yield(point string) {
-	cr.counter(&cr.hits, point).Add(1)
-	if cr.inOp.Load() > 1 {
-		cr.counter(&cr.overlap, point).Add(1)
+	if cr.stats.Load() {
+		cr.counter(&cr.hits, point).Add(1)
+		if cr.inOp.Load() > 1 {
+			cr.counter(&cr.overlap, point).Add(1)
+		}
 	}
 	switch cr.yieldV[point] {
 	case 1:
@@ -202,17 +217,50 @@ func (cr *c09Run) yield(point string) {
 	}
 }
 
+// c09Worker is the per goroutine side of the harness: its progress counter is written by that goroutine only.
+type c09Worker struct {
+	cr   *c09Run
+	prog atomic.Int64
+}
+
+func (cr *c09Run) worker() *c09Worker {
+	w := &c09Worker{cr: cr}
+	cr.wmu.Lock()
+	cr.workers = append(cr.workers, w)
+	cr.wmu.Unlock()
+	return w
+}
+
+func (cr *c09Run) progress() int64 {
+	cr.wmu.Lock()
+	defer cr.wmu.Unlock()
+	var n int64
+	for _, w := range cr.workers {
+		n += w.prog.Load()
+	}
+	return n
+}
+
 // op runs one gated harness operation.
-func (cr *c09Run) op(name string, f func()) {
+func (w *c09Worker) op(name string, f func()) {
+	cr := w.cr
 	cr.gate.RLock()
-	cr.inOp.Add(1)
-	f()
-	cr.inOp.Add(-1)
+	if cr.stats.Load() {
+		cr.inOp.Add(1)
+		f()
+		cr.inOp.Add(-1)
+	} else {
+		f()
+	}
 	cr.gate.RUnlock()
-	cr.prog.Add(1)
+	w.prog.Add(1)
 }
 
 func (cr *c09Run) record(ev regEvent, f func() int) {
+	if !cr.recordHistory {
+		f()
+		return
+	}
 	ev.call = cr.clock.Add(1)
 	ev.out = f()
 	ev.ret = cr.clock.Add(1)
@@ -225,6 +273,7 @@ func (cr *c09Run) apiWorker(proc int, seed int64, nOps int, wg *sync.WaitGroup) 
 	defer wg.Done()
 	r := rand.New(rand.NewSource(seed))
 	s, st := cr.st.s, cr.st
+	w := cr.worker()
 	ips := c09IPs()
 	for i := 0; i < nOps && !cr.stop.Load(); i++ {
 		mac := hw(c09MACs[r.Intn(len(c09MACs))])
@@ -232,7 +281,7 @@ func (cr *c09Run) apiWorker(proc int, seed int64, nOps int, wg *sync.WaitGroup) 
 		reg := r.Intn(len(c09RegMACs))
 		switch k := r.Intn(24); k {
 		case 0, 1:
-			cr.op("FindIP", func() {
+			w.op("FindIP", func() {
 				if h := s.FindIP(ip); h != nil {
 					// the API contract: row lock to read the fields of a Host obtained from FindIP
 					h.MACEntry.Row.RLock()
@@ -246,7 +295,7 @@ func (cr *c09Run) apiWorker(proc int, seed int64, nOps int, wg *sync.WaitGroup) 
 				}
 			})
 		case 2:
-			cr.op("GetHosts", func() {
+			w.op("GetHosts", func() {
 				for _, h := range s.GetHosts() {
 					h.MACEntry.Row.RLock()
 					_ = h.Online
@@ -255,11 +304,11 @@ func (cr *c09Run) apiWorker(proc int, seed int64, nOps int, wg *sync.WaitGroup) 
 				}
 			})
 		case 3:
-			cr.op("IPAddrs", func() { s.IPAddrs(mac) })
+			w.op("IPAddrs", func() { s.IPAddrs(mac) })
 		case 4:
-			cr.op("FindByMAC", func() { s.FindByMAC(mac) })
+			w.op("FindByMAC", func() { s.FindByMAC(mac) })
 		case 5:
-			cr.op("FindMACEntry", func() {
+			w.op("FindMACEntry", func() {
 				if e := s.FindMACEntry(mac); e != nil {
 					e.Row.RLock()
 					_ = e.Online
@@ -268,51 +317,57 @@ func (cr *c09Run) apiWorker(proc int, seed int64, nOps int, wg *sync.WaitGroup) 
 				}
 			})
 		case 6:
-			cr.op("PrintTable", func() { s.PrintTable() })
+			w.op("PrintTable", func() { s.PrintTable() })
 		case 7:
-			cr.op("Capture", func() { s.Capture(mac) })
+			w.op("Capture", func() { s.Capture(mac) })
 		case 8:
-			cr.op("Release", func() { s.Release(mac) })
+			w.op("Release", func() { s.Release(mac) })
 		case 9:
-			cr.op("IsCaptured", func() { s.IsCaptured(mac) })
+			w.op("IsCaptured", func() { s.IsCaptured(mac) })
 		case 10:
-			cr.op("SetDHCPv4IPOffer", func() { s.SetDHCPv4IPOffer(mac, ips[r.Intn(6)], packet.NameEntry{Name: "n"}) })
+			w.op("SetDHCPv4IPOffer", func() { s.SetDHCPv4IPOffer(mac, ips[r.Intn(6)], packet.NameEntry{Name: "n"}) })
 		case 11:
-			cr.op("DHCPv4IPOffer", func() { s.DHCPv4IPOffer(mac) })
+			w.op("DHCPv4IPOffer", func() { s.DHCPv4IPOffer(mac) })
 		case 12:
-			cr.op("arp.StartHunt", func() { st.arp.StartHunt(packet.Addr{MAC: mac, IP: ips[r.Intn(6)]}) })
+			w.op("arp.StartHunt", func() { st.arp.StartHunt(packet.Addr{MAC: mac, IP: ips[r.Intn(6)]}) })
 		case 13:
-			cr.op("arp.StopHunt", func() { st.arp.StopHunt(packet.Addr{MAC: mac, IP: ips[r.Intn(6)]}) })
+			w.op("arp.StopHunt", func() { st.arp.StopHunt(packet.Addr{MAC: mac, IP: ips[r.Intn(6)]}) })
 		case 14:
-			cr.op("arp.IsHunting", func() { st.arp.IsHunting(ips[r.Intn(6)]) })
+			w.op("arp.IsHunting", func() { st.arp.IsHunting(ips[r.Intn(6)]) })
 		case 15:
-			cr.op("icmp6.StartHunt", func() { st.icmp6.StartHunt(packet.Addr{MAC: mac, IP: ips[6+2*r.Intn(3)]}) })
+			w.op("icmp6.StartHunt", func() { st.icmp6.StartHunt(packet.Addr{MAC: mac, IP: ips[6+2*r.Intn(3)]}) })
 		case 16:
-			cr.op("icmp6.StopHunt", func() { st.icmp6.StopHunt(packet.Addr{MAC: mac, IP: ips[6+2*r.Intn(3)]}) })
+			w.op("icmp6.StopHunt", func() { st.icmp6.StopHunt(packet.Addr{MAC: mac, IP: ips[6+2*r.Intn(3)]}) })
 		case 17:
 			if r.Intn(2) == 0 {
 				// the DHCP handler's hunt entry points, for the address the MAC was offered / leased
-				cr.op("dhcp.StartHunt/StopHunt", func() {
-					a := packet.Addr{MAC: mac, IP: s.DHCPv4IPOffer(mac)}
+				w.op("dhcp.StartHunt/StopHunt", func() {
+					// every client the harness side DHCP state knows a lease for, then the MAC drawn above
+					var as []packet.Addr
 					cr.dh.mu.Lock()
-					if x, ok := cr.dh.acked[toMAC(mac)]; ok {
-						a.IP = x // the address the harness side client was acknowledged
+					for m, x := range cr.dh.acked {
+						as = append(as, packet.Addr{MAC: hw(m), IP: x})
 					}
 					cr.dh.mu.Unlock()
+					a := packet.Addr{MAC: mac, IP: s.DHCPv4IPOffer(mac)}
 					if !a.IP.IsValid() {
 						a.IP = ips[r.Intn(6)]
 					}
-					if r.Intn(2) == 0 {
-						st.dhcp.StartHunt(a)
-					} else {
-						st.dhcp.StopHunt(a)
+					for _, a := range append(as, a) {
+						if r.Intn(4) != 0 {
+							st.dhcp.StartHunt(a)
+						} else {
+							st.dhcp.StopHunt(a)
+						}
 					}
 				})
 				break
 			}
-			cr.op("dhcp.MinuteTicker", func() { st.dhcp.MinuteTicker(time.Now().Add(time.Duration(r.Intn(5)) * time.Hour)) })
+			w.op("dhcp.MinuteTicker", func() {
+				st.dhcp.MinuteTicker(time.Now().Add([]time.Duration{0, time.Minute, time.Hour, 3 * time.Hour, 5 * time.Hour}[r.Intn(5)]))
+			})
 		case 18:
-			cr.op("handler.PrintTable", func() {
+			w.op("handler.PrintTable", func() {
 				switch r.Intn(3) {
 				case 0:
 					st.arp.PrintTable()
@@ -323,17 +378,17 @@ func (cr *c09Run) apiWorker(proc int, seed int64, nOps int, wg *sync.WaitGroup) 
 				}
 			})
 		case 19:
-			cr.op("icmp6.FindRouter", func() { st.icmp6.FindRouter(c14Routers[r.Intn(2)].ip) })
+			w.op("icmp6.FindRouter", func() { st.icmp6.FindRouter(c14Routers[r.Intn(2)].ip) })
 		case 20: // register operations for the porcupine history
-			cr.op("reg.Capture", func() {
+			w.op("reg.Capture", func() {
 				cr.record(regEvent{kind: "capture", mac: reg, proc: proc}, func() int { s.Capture(c09RegMACs[reg]); return 0 })
 			})
 		case 21:
-			cr.op("reg.Release", func() {
+			w.op("reg.Release", func() {
 				cr.record(regEvent{kind: "release", mac: reg, proc: proc}, func() int { s.Release(c09RegMACs[reg]); return 0 })
 			})
 		case 22:
-			cr.op("reg.IsCaptured", func() {
+			w.op("reg.IsCaptured", func() {
 				cr.record(regEvent{kind: "iscaptured", mac: reg, proc: proc}, func() int {
 					if s.IsCaptured(c09RegMACs[reg]) {
 						return 1
@@ -344,14 +399,14 @@ func (cr *c09Run) apiWorker(proc int, seed int64, nOps int, wg *sync.WaitGroup) 
 		default:
 			if r.Intn(2) == 0 {
 				v := 1 + r.Intn(200)
-				cr.op("reg.SetOffer", func() {
+				w.op("reg.SetOffer", func() {
 					cr.record(regEvent{kind: "setoffer", mac: reg, arg: v, proc: proc}, func() int {
 						s.SetDHCPv4IPOffer(c09RegMACs[reg], netip.AddrFrom4([4]byte{192, 168, 0, byte(v)}), packet.NameEntry{})
 						return 0
 					})
 				})
 			} else {
-				cr.op("reg.GetOffer", func() {
+				w.op("reg.GetOffer", func() {
 					cr.record(regEvent{kind: "getoffer", mac: reg, proc: proc}, func() int {
 						a := s.DHCPv4IPOffer(c09RegMACs[reg])
 						if !a.IsValid() {
@@ -430,6 +485,7 @@ func (cr *c09Run) run() {
 	defer runtime.GOMAXPROCS(old)
 	e := gen.DefaultEnv()
 	cr.st = newStack(scratch, mon.DefaultNIC())
+	cr.recordHistory = cr.idx%3 == 0
 	cr.dh = &c09DHCP{xid: map[refdec.MAC][4]byte{}, acked: map[refdec.MAC]netip.Addr{}, follow: make(chan []byte, 64)}
 	st := cr.st
 	s := st.s
@@ -460,13 +516,14 @@ func (cr *c09Run) run() {
 	wg.Add(1)
 	go func() {
 		defer wg.Done()
+		w := cr.worker()
 		buf := make([]byte, packet.EthMaxSize)
 		for {
 			n, _, err := s.ReadFrom(buf)
 			if err != nil {
 				return
 			}
-			cr.op("packet-loop", func() {
+			w.op("packet-loop", func() {
 				frame, err := s.Parse(buf[:n])
 				if err != nil {
 					return
@@ -510,9 +567,10 @@ func (cr *c09Run) run() {
 	wg.Add(1)
 	go func() {
 		defer wg.Done()
+		w := cr.worker()
 		offs := []time.Duration{0, 6 * time.Minute, 62 * time.Minute}
 		for i := 0; i < nPurges && !cr.stop.Load(); i++ {
-			cr.op("VerifPurge", func() { s.VerifPurge(time.Now().Add(offs[i%3])) })
+			w.op("VerifPurge", func() { s.VerifPurge(time.Now().Add(offs[i%3])) })
 			purges.Add(1)
 			time.Sleep(200 * time.Microsecond)
 		}
@@ -524,12 +582,16 @@ func (cr *c09Run) run() {
 	}
 	// barriers + deadlock monitor
 	t0 := time.Now()
+	cr.stats.Store(true)
 	barriers, skipped := 0, 0
 	lastProg, lastChange := int64(-1), time.Now()
 	deadline := time.Now().Add(time.Duration(c.N(14, 40)) * time.Second)
 	for time.Now().Before(deadline) {
 		time.Sleep(150 * time.Millisecond)
-		if p := cr.prog.Load(); p != lastProg {
+		if cr.stats.Load() && time.Since(t0) > 2*time.Second {
+			cr.stats.Store(false) // from here on the harness keeps out of the race detector's way
+		}
+		if p := cr.progress(); p != lastProg {
 			lastProg, lastChange = p, time.Now()
 		} else if time.Since(lastChange) > 25*time.Second {
 			cr.stalled("no harness goroutine made progress for 25 s")
@@ -600,7 +662,7 @@ func (cr *c09Run) run() {
 	c.Obs("frames_handled", handled.Load())
 	c.Obs("purges", purges.Load())
 	c.Obs("notifications_drained", drained.Load())
-	c.Obs("harness_ops", cr.prog.Load())
+	c.Obs("harness_ops", cr.progress())
 	cr.dh.mu.Lock()
 	c.Obs("dhcp_leases_acknowledged_in_stress", cr.dh.nAck)
 	cr.dh.mu.Unlock()
@@ -622,7 +684,7 @@ func (cr *c09Run) run() {
 	}
 	c.Class(fmt.Sprintf("procs=%d api=%d yield=%s", procs, nAPI, strings.Join(yv, "")))
 	c.Sample(map[string]any{"run": cr.idx, "GOMAXPROCS": procs, "api_goroutines": nAPI, "yield_vector(point order " + strings.Join(points, ",") + ")": strings.Join(yv, ""),
-		"frames_handled": handled.Load(), "purges": purges.Load(), "barriers": barriers, "harness_ops": cr.prog.Load(), "history_ops": nh, "yield_points_with_overlap": overl})
+		"frames_handled": handled.Load(), "purges": purges.Load(), "barriers": barriers, "harness_ops": cr.progress(), "history_ops": nh, "yield_points_with_overlap": overl})
 }
 
 // stalled decides between deadlock and slowness: a deadlock verdict needs at least two goroutines blocked on a lock inside
